@@ -451,6 +451,17 @@ class Report:
                 self.obligations.append(dict(name=name, ok=False, axioms=[], detail="the driver could not be started on this "
                                              "tree: " + " ".join(observed.split())[-400:]))
             return
+        if what == "driver crashed" and isinstance(observed, str):
+            import re as _re
+            frames = _re.findall(r'File "([^"]+)", line \d+', observed)
+            if frames and frames[-1].startswith(os.path.join(VERIF, "harness") + os.sep):
+                # the exception was raised by harness code itself (innermost frame under /verif/harness): the harness failed to
+                # observe this run - not an input on which the implementation is shown to break the property
+                name = "harness:driver-crash"
+                if not any(o["name"] == name for o in self.obligations):
+                    self.obligations.append(dict(name=name, ok=False, axioms=[], detail="the driver raised in its own code: "
+                                                 + " ".join(observed.split())[-400:]))
+                return
         self.failures.append(dict(what=what, case=case, observed=observed, expected=expected, sig=sig or {}))
 
     # ---- verdict
